@@ -764,6 +764,7 @@ fn gen_main(args: &[String]) -> i32 {
             5 => plangen::hoisted_after_dead(&mut rng),
             11 => plangen::many_locals(&mut rng),
             8 | 14 => plangen::scc_capture(&mut rng),
+            3 => plangen::multi_callee_store(&mut rng),
             _ => plangen::program(&mut rng, size as usize),
         };
         let s2 = src.clone();
